@@ -95,6 +95,9 @@ def positions_of_class(rng, n, cls):
     if cls == "grid":
         steps = rng.integers(0, 4, size=(n, 1)) * np.eye(3)[rng.integers(0, 3, size=n)]
         return np.cumsum(steps, axis=0).astype(float)
+    if cls == "intwalk":
+        # whole-number coordinates with diagonal steps (non-integer step lengths)
+        return np.cumsum(rng.integers(-3, 4, size=(n, 3)), axis=0).astype(float)
     if cls == "stationary_mix":
         steps = rng.normal(size=(n, 3)) * (rng.random((n, 1)) < 0.5)
         return np.cumsum(steps, axis=0)
@@ -105,7 +108,7 @@ def positions_of_class(rng, n, cls):
     raise KeyError(cls)
 
 
-POS_CLASSES = ["walk", "utm", "tiny", "huge", "grid", "stationary_mix", "circle"]
+POS_CLASSES = ["walk", "utm", "tiny", "huge", "grid", "stationary_mix", "circle", "intwalk"]
 
 
 def rotations_of_class(rng, n, cls):
@@ -126,13 +129,26 @@ def rotations_of_class(rng, n, cls):
     if cls == "mixed":
         return np.array([rot_of_class(rng, ROT_CLASSES[rng.integers(len(ROT_CLASSES))])
                          for _ in range(n)])
+    if cls == "quarter_grid":
+        # products of quarter turns about the coordinate axes: entries exactly 0 / +-1
+        Q = [np.array(m, dtype=float) for m in ([[1, 0, 0], [0, 0, -1], [0, 1, 0]], [[0, 0, 1], [0, 1, 0], [-1, 0, 0]],
+                                                 [[0, -1, 0], [1, 0, 0], [0, 0, 1]])]
+        out, R = [], np.eye(3)
+        for _ in range(n):
+            for _k in range(int(rng.integers(0, 3))):
+                R = np.rint(R @ Q[rng.integers(3)])
+            out.append(R.copy())
+        return np.array(out)
     raise KeyError(cls)
 
 
-ROTSEQ_CLASSES = ["uniform", "identity", "smooth", "yaw_grid", "mixed"]
+ROTSEQ_CLASSES = ["uniform", "identity", "smooth", "yaw_grid", "mixed", "quarter_grid"]
 
 
 def traj_arrays(rng, n, pos_cls=None, rot_cls=None, stamp_cls=None):
+    if pos_cls is None and rot_cls is None and stamp_cls is None and rng.random() < .05:
+        # "toy" data: whole-number coordinates, axis-aligned attitudes, index stamps
+        pos_cls, rot_cls, stamp_cls = ["intwalk", "grid"][rng.integers(2)], "quarter_grid", "index"
     pos_cls = pos_cls or POS_CLASSES[rng.integers(len(POS_CLASSES))]
     rot_cls = rot_cls or ROTSEQ_CLASSES[rng.integers(len(ROTSEQ_CLASSES))]
     stamp_cls = stamp_cls or STAMP_CLASSES[rng.integers(len(STAMP_CLASSES))]
@@ -169,9 +185,20 @@ def make_evo(arr, mode="se3", stamped=True, meta=None, flavour="array64"):
     Build a fresh evo object from arrays.  mode 'se3': from 4x4 matrices; 'xyzq': from
     positions + quaternions.  All arrays are copies, so the evo object owns its data.
     """
-    from evo.core.trajectory import PosePath3D, PoseTrajectory3D
+    from evo.core import trajectory as _tr
+    PosePath3D, PoseTrajectory3D = _tr.PosePath3D, _tr.PoseTrajectory3D
+    if "+sub" in flavour:
+        # instances of subclasses: evo's own compatibility class or a user-defined one
+        if stamped and len(arr["p"]) % 2 == 0:
+            PoseTrajectory3D = _tr.Trajectory
+        else:
+            PoseTrajectory3D = type("UserTrajectory", (_tr.PoseTrajectory3D, ), {})
+            PosePath3D = type("UserPath", (_tr.PosePath3D, ), {})
+    flavour = flavour.split("+")[0]
     if mode == "se3":
         poses = [rm.se3(R, p) for R, p in zip(arr["R"], arr["p"])]
+        if flavour == "intmat" and all_integer(arr["p"]) and all_integer(arr["R"]):
+            poses = [np.rint(P).astype(np.int64) for P in poses]  # integer-dtype pose matrices
         if flavour == "stacked":
             poses = np.stack(poses)  # one N x 4 x 4 array instead of a list of matrices
         if stamped:
@@ -186,16 +213,23 @@ def make_evo(arr, mode="se3", stamped=True, meta=None, flavour="array64"):
         # the constructor documents "nx3 list" / "nx4 list" / "nx1 list": plain Python lists
         p, q = p.tolist(), q.tolist()
         t = t.tolist() if t is not None else None
-    elif flavour == "int" and bool(np.all(p == np.round(p))) and float(np.max(np.abs(p))) < 2**50:
-        p = p.astype(np.int64).tolist()  # integer grid positions given as Python ints
+    elif flavour == "int" and all_integer(p):
+        # whole-number positions given as Python ints or as an integer ndarray
+        p = p.astype(np.int64).tolist() if len(p) % 2 else p.astype(np.int64)
     if stamped:
         return PoseTrajectory3D(positions_xyz=p, orientations_quat_wxyz=q, timestamps=t, meta=meta)
     return PosePath3D(positions_xyz=p, orientations_quat_wxyz=q, meta=meta)
 
 
+def all_integer(a):
+    a = np.asarray(a, dtype=float)
+    return bool(np.all(a == np.round(a))) and (a.size == 0 or float(np.max(np.abs(a))) < 2**50)
+
+
 def rand_flavour(rng):
     u = rng.random()
-    return "lists" if u < .15 else "int" if u < .3 else "stacked" if u < .45 else "array64"
+    base = "lists" if u < .15 else "int" if u < .3 else "stacked" if u < .45 else "array64"
+    return base + ("+sub" if rng.random() < .1 else "")
 
 
 def read_views(traj):
